@@ -493,7 +493,8 @@ Theorem chain_choice c chain sc0 :
   ((sc0 = SC_TRU /\ validate_tru_prefix (c_attr_value c) = true /\
     chain = [N_validateTRUSubst; N_queryEscapeURL; N_sanitizeHTML]) \/
    ((sc0 = SC_URL \/ sc0 = SC_TRUOrURL) /\ validate_url_prefix (c_attr_value c) = true /\
-    chain = if has_qf (c_attr_value c) then [N_queryEscapeURL; N_sanitizeHTML] else [N_normalizeURL; N_sanitizeHTML])).
+    chain = if has_qf (html_unescape (c_attr_value c)) then [N_queryEscapeURL; N_sanitizeHTML]
+            else [N_normalizeURL; N_sanitizeHTML])).
 Proof.
   intros Hsc Hu Hne. unfold sanitizers_for_attr_value. rewrite Hsc.
   destruct (sc_is_enum sc0 && negb (bytes_eqb (c_attr_value c) [])); [discriminate|].
@@ -510,14 +511,14 @@ Proof.
   - rewrite N.eqb_refl, orb_true_r.
     destruct (validate_url_prefix (b0 :: v)) eqn:Ep; cbn [negb]; [|discriminate].
     rewrite D3, index_any_has_qf. intros H. split; [reflexivity|]. right. split; [auto|]. split; [reflexivity|].
-    destruct (has_qf (b0 :: v)); inversion H; reflexivity.
+    destruct (has_qf (html_unescape (b0 :: v))); inversion H; reflexivity.
   - rewrite N.eqb_refl. cbn [orb].
     destruct (validate_url_prefix (b0 :: v)) eqn:Ep; cbn [negb]; [|discriminate].
     rewrite D4, index_any_has_qf. intros H. split; [reflexivity|]. right. split; [auto|]. split; [reflexivity|].
-    destruct (has_qf (b0 :: v)); inversion H; reflexivity.
+    destruct (has_qf (html_unescape (b0 :: v))); inversion H; reflexivity.
 Qed.
 
-(* the same over the DECODED prefix, outside finding D16 *)
+(* kept for props/C14.v: the statement under the D16 hypothesis is an instance of the full one *)
 Theorem chain_choice_decoded c chain sc0 :
   all_same_sc (attr_pairs c) (c_link_rel c) None = Some sc0 ->
   sc_is_url sc0 = true -> c_attr_value c <> [] ->
@@ -529,10 +530,7 @@ Theorem chain_choice_decoded c chain sc0 :
    ((sc0 = SC_URL \/ sc0 = SC_TRUOrURL) /\ validate_url_prefix (c_attr_value c) = true /\
     chain = if has_qf (html_unescape (c_attr_value c)) then [N_queryEscapeURL; N_sanitizeHTML]
             else [N_normalizeURL; N_sanitizeHTML])).
-Proof.
-  intros Hsc Hu Hne Hd H. destruct (chain_choice c chain sc0 Hsc Hu Hne H) as [Ha Hc]. split; [exact Ha|].
-  unfold finding_D16 in Hd. apply negb_false_iff in Hd. apply eqb_prop in Hd. rewrite <- Hd. exact Hc.
-Qed.
+Proof. intros Hsc Hu Hne _ H. exact (chain_choice c chain sc0 Hsc Hu Hne H). Qed.
 
 (* non-vacuity: the contexts of  <a href="/foo?x={{.}}">, <a href="/foo/{{.}}"> and <script src="/a/{{.}}"> *)
 Definition ctx_of (e a p : bytes) : context := mkctx StAttr DDoubleQuote e [] a p false [] None [] [].
